@@ -44,7 +44,8 @@ def owns(pid, cls):
         return is23
     # C22: everything that is not a pure wake-up-stream class; the cancelled-sleep panic also breaks
     # "the task and its destructors are released exactly once" (the destructor run panics)
-    return not is23 or cls == "panic:wake-after-cancelled-sleep"
+    # … and answering WAIT although the task was woken during the poll is an inconsistent answer
+    return not is23 or cls in ("panic:wake-after-cancelled-sleep", "wake-during-poll-lost")
 
 
 def build_exec(c, build):
